@@ -427,6 +427,69 @@ Proof.
 Qed.
 Print Assumptions C18_bad_cert_is_error.
 
+(* ------------------------------------------------------------------------------------------------
+   "Address in use" when the address is held by ANOTHER INSTANCE of the router (same listener).  The property
+   names address in use as a start-up error; sharing an address between two instances is legitimate only when
+   so_reuseport is configured explicitly ([si_must_refuse]).  The code ([si_refuses]) refuses the second instance
+   for the metrics endpoint and for every listener kind - udp with threads <= 1, tcp, gnet, http, fasthttp, tls,
+   https, quic - unless so_reuseport is configured (quic ignores it and always refuses). *)
+Theorem C18_second_instance_refused : forall k rp,
+  In k si_all_kinds -> si_must_refuse k rp = true -> k <> SiKSrv SiSrvUdpN ->
+  si_refuses k rp = true /\
+  exists j, si_fault_stmt k (SfHeldByRouter rp) = Some j /\
+            snd (si_run [si_prog_of false k] (Some (0, j))) = Some 0.
+Proof.
+  intros k rp Hk Hm Hn. pose proof (si_must_refuse_holds k rp Hm Hn) as R. split; [exact R|].
+  unfold si_refuses in R. destruct (si_fault_stmt k (SfHeldByRouter rp)) as [j|] eqn:E; [|discriminate].
+  exists j. split; [reflexivity|]. eapply si_fault_reported; eauto.
+Qed.
+Print Assumptions C18_second_instance_refused.
+
+(* the full statement (forall k rp, si_must_refuse k rp = true -> si_refuses k rp = true) is false of the code as
+   it is: a udp listener with udp.threads >= 2 sets SO_REUSEPORT on its sockets, so a second instance on the same
+   address starts although so_reuseport was not configured (known finding K8) *)
+Theorem C18_second_instance_udp_threads_refuted :
+  exists k rp, si_must_refuse k rp = true /\ si_refuses k rp = false.
+Proof. exists (SiKSrv SiSrvUdpN), false. exact si_udp_threads_shares. Qed.
+Print Assumptions C18_second_instance_udp_threads_refuted.
+
+(* ------------------------------------------------------------------------------------------------
+   Closers and their peers: closeImpl calls the closers in order; "returns without waiting for its peers" is a
+   property of each closer kind.  No closer of the code waits for its peers (the fasthttp one waits at most a fixed
+   grace period), so for EVERY configuration and EVERY behaviour of the connected clients router.close returns and
+   has called every closer. *)
+Theorem C18_close_returns_whatever_peers : forall (items : list (si_kind * bool)),
+  si_close_walk (si_closers items) = (length (si_closers items), true) /\
+  forall k w, si_closer_wait k = Some w -> w <> SiWaitPeers.
+Proof. intros items. split; [apply si_close_always_returns|apply si_closer_wait_not_peers]. Qed.
+Print Assumptions C18_close_returns_whatever_peers.
+
+(* in general: close returns for every peer behaviour iff no closer waits for its peers *)
+Theorem C18_close_returns_iff_no_peer_wait : forall cl : list si_wait,
+  si_no_peer_wait cl = true <->
+  forall stuck : list bool, length stuck = length cl -> snd (si_close_walk (combine cl stuck)) = true.
+Proof.
+  intros cl. split.
+  - intros H stuck L. assert (map fst (combine cl stuck) = cl) as E.
+    { clear H. revert stuck L. induction cl as [|w tl IH]; intros [|b st] L; cbn in *; try discriminate; auto.
+      f_equal. apply IH. lia. }
+    rewrite si_close_walk_no_wait; [reflexivity|now rewrite E].
+  - intros H. destruct (si_no_peer_wait cl) eqn:E; [reflexivity|]. exfalso.
+    specialize (H (map (fun _ => true) cl)). rewrite map_length in H. specialize (H eq_refl).
+    clear - E H. induction cl as [|w tl IH]; cbn in *; [discriminate|].
+    destruct w; cbn in *; try discriminate;
+      destruct (si_close_walk (combine tl (map (fun _ => true) tl))) as [n b] eqn:W; cbn in *; subst; auto.
+Qed.
+Print Assumptions C18_close_returns_iff_no_peer_wait.
+
+(* a closer that waits for its peers is refuted by one stuck peer: the metrics endpoint closed with
+   http.Server.Shutdown(context.Background()) is closer number 0; with a client stuck in the middle of a request
+   close never returns and none of the closers behind it (the DNS listeners) is called *)
+Theorem C18_closer_waiting_for_peers_refuted : forall post,
+  si_close_walk (map (fun w => (w, true)) (SiWaitPeers :: post)) = (0, false).
+Proof. intros post. exact (si_close_walk_blocks [] post eq_refl). Qed.
+Print Assumptions C18_closer_waiting_for_peers_refuted.
+
 (* ---------------- non-vacuity ---------------- *)
 (* Close while a dial is in flight whose result arrives later: the late connection is closed on arrival,
    the waiting caller gets an error, nothing stays open *)
